@@ -16,7 +16,7 @@ def _c17_out_kind(o):
 
 
 PROPS["C17"] = dict(
-    level_text="Theorems (Props/C17.lean) prove, for the Lean model of every SerializeValue impl (leaves with their exact_type_check! lists, Option / Unset / MaybeUnset / MaybeEmpty, Vec / HashSet / BTreeSet -> serialize_sequence | serialize_vector, maps, Rust tuples, CqlValue incl. UDTs) with the output buffer threaded through and returned ALSO ON FAILURE: every serializer only appends to the buffer, whatever it returns (ser_appends), and a successful top-level call appends exactly one well-framed [value] (ser_writes_cell); hence add_value_atomic - after a failed add_value of ANY kind (type mismatch at the top, mismatch / wrong vector dimension / left-over UDT field deep inside a partially written collection, size overflow found by finish, too many values) the SerializedValues has the same bytes and count - and count_eq_cells - after ANY sequence of add_value calls, successes and failures interleaved, element_count() equals the number of cells iter() parses and is <= 65535 (induction over the call list); too_many_values (+ only then); ser_ok_fits / ser_rejects / ser_fits_ok_or_size / ser_ok_iff_partial - serialization succeeds iff the value-directed buffer-free condition `fits` holds and no size error occurs, at any nesting depth; accepted_pair_serializes / mismatched_pair_rejected / mismatched_pair_never_bound - the static relation accepts(carrier type, column type) implies success for every value (vector dimensions permitting) and its negation implies rejection of every fully populated value, which add_value then leaves unbound; deser_typecheck_iff / row_typecheck_iff - DeserializeValue::type_check and the row-level check succeed exactly on deserAccepts (recursing into element / key / value / field / column types). TESTS (decide +kernel, labelled): both relations equal the documentation's table on all 19 leaves x 20 natives, on 167 carriers x 200 types of one nesting level and 64 x 200 of two. The model is tied to scylla-cql-core by a differential run over ~100 concrete Rust carrier types x column types of nesting <= 2 (serialize with four representative values each, type_check, row-level type_check) and add_value sequences with failing values of every kind, with a model-independent oracle (clone-before/compare-after, element_count == iter().count(), documented pairs accepted, undocumented leaf pairs refused, round trip through the same Rust type).",
+    level_text="Theorems (Props/C17.lean) prove, for the Lean model of every SerializeValue impl (leaves with their exact_type_check! lists, Option / Unset / MaybeUnset / MaybeEmpty, Vec / HashSet / BTreeSet -> serialize_sequence | serialize_vector, maps, Rust tuples, CqlValue incl. UDTs) with the output buffer threaded through and returned ALSO ON FAILURE: every serializer only appends to the buffer, whatever it returns (ser_appends), and a successful top-level call appends exactly one well-framed [value] (ser_writes_cell); hence add_value_atomic - after a failed add_value of ANY kind (type mismatch at the top, mismatch / wrong vector dimension / left-over UDT field deep inside a partially written collection, size overflow found by finish, too many values) the SerializedValues has the same bytes and count - and count_eq_cells - after ANY sequence of add_value calls, successes and failures interleaved, element_count() equals the number of cells iter() parses and is <= 65535 (induction over the call list); too_many_values (+ only then); ser_ok_fits / ser_rejects / ser_fits_ok_or_size / ser_ok_iff_partial - serialization succeeds iff the value-directed buffer-free condition `fits` holds and no size error occurs, at any nesting depth; accepted_pair_serializes / mismatched_pair_rejected / mismatched_pair_never_bound - the static relation accepts(carrier type, column type) implies success for every value (vector dimensions permitting) and its negation implies rejection of every fully populated value, which add_value then leaves unbound; deser_typecheck_iff / row_typecheck_iff - DeserializeValue::type_check and the row-level check succeed exactly on deserAccepts (recursing into element / key / value / field / column types). TESTS (decide +kernel, labelled): both relations equal the documentation's table on all 19 leaves x 20 natives, on 167 carriers x 200 types of one nesting level and 64 x 200 of two. The model is tied to scylla-cql-core by a differential run over ~100 concrete Rust carrier types x column types of nesting <= 2 (serialize with four representative values each, type_check, row-level type_check) and add_value sequences with failing values of every kind, with a model-independent oracle (clone-before/compare-after, element_count == iter().count(), documented pairs accepted, undocumented leaf pairs refused, round trip through the same Rust type; for every dynamic CqlValue case an independent `dyn_fits` written from the documentation - unknown UDT field at any depth and with fewer / as many / more fields than the type, over-long tuple, wrong vector length, element of another type must be refused, a fitting value must be accepted).",
     level_note="Trusted: Lean kernel + {propext, Classical.choice, Quot.sound}; hand-written models Model/Carrier.lean, Model/Row.lean (tie = byte-exact differential harness through the public API: SerializedValues::add_value, DeserializeValue::type_check, DeserializeRow::type_check). Leaf bodies are abstract byte strings (their encoding is C01). Generated/DocMatrix.lean is a hand transcription of docs/source/data-types/*.md. Known findings C01-F2 / C01-F9 (a None / Empty element directly inside a vector is accepted and written unframed) are value-level defects shared with C01; the model reproduces the implementation there.",
     lean_modules=["ScyllaVerif.Props.C17"],
     rule="case = (Rust carrier type, representative value, column type) for serialize / type_check, (row type, column types) for the row-level check, or one add_value sequence; distinct case lines count as non-trivial unless the output is bad-case",
